@@ -76,6 +76,15 @@ class TList(list):
     def extend(s, v): r = list.extend(s, v); _hit("W", s._n + "[*]", s); return r
     def sort(s, *a, **k): r = list.sort(s, *a, **k); _hit("W", s._n + "[*]", s); return r
     def reverse(s): r = list.reverse(s); _hit("W", s._n + "[*]", s); return r
+    def remove(s, v): r = list.remove(s, v); _hit("W", s._n + "[*]", s); return r
+    def insert(s, i, v): r = list.insert(s, i, v); _hit("W", s._n + "[*]", s); return r
+    def pop(s, *a): r = list.pop(s, *a); _hit("W", s._n + "[*]", s); return r
+    def clear(s): r = list.clear(s); _hit("W", s._n + "[*]", s); return r
+    def __delitem__(s, i): r = list.__delitem__(s, i); _hit("W", s._n + "[*]", s); return r
+    def __iadd__(s, o): list.extend(s, o); _hit("W", s._n + "[*]", s); return s
+    def index(s, *a): _hit("R", s._n + "[*]", s); return list.index(s, *a)
+    def count(s, v): _hit("R", s._n + "[*]", s); return list.count(s, v)
+    def __contains__(s, v): _hit("R", s._n + "[*]", s); return list.__contains__(s, v)
 
 
 class TDict(dict):
@@ -86,6 +95,13 @@ class TDict(dict):
     def __contains__(s, k): r = dict.__contains__(s, k); _hit("R", s._k(k), r); return r
     def __setitem__(s, k, v): r = dict.__setitem__(s, k, v); _hit("W", s._k(k), v); return r
     def setdefault(s, k, d=None): v = dict.setdefault(s, k, d); _hit("W", s._k(k), v); return v
+    def pop(s, k, *a): v = dict.pop(s, k, *a); _hit("W", s._k(k), None); return v
+    def __delitem__(s, k): r = dict.__delitem__(s, k); _hit("W", s._k(k), None); return r
+    def clear(s): r = dict.clear(s); _hit("W", s._n + "[*]", s); return r
+    def update(s, *a, **k): r = dict.update(s, *a, **k); _hit("W", s._n + "[*]", s); return r
+    def __iter__(s): _hit("R", s._n + "[*]", s); return dict.__iter__(s)
+    def items(s): _hit("R", s._n + "[*]", s); return dict.items(s)
+    def values(s): _hit("R", s._n + "[*]", s); return dict.values(s)
 
 
 def _wrap(o, name):
@@ -119,6 +135,41 @@ def install_proxies():
     return names
 
 
+_TRACED = {}
+
+
+def _trace_attrs(obj, name):
+    """data attributes of a shared instance become shared locations too (reads and rebinding)"""
+    cls = type(obj)
+    if getattr(cls, "_a5_traced", False):
+        return
+    if cls not in _TRACED:
+        def ga(self, attr):
+            v = object.__getattribute__(self, attr)
+            if attr[:2] != "__" and attr[:4] != "_a5_":
+                d = object.__getattribute__(self, "__dict__")
+                if attr in d and type(v) not in (TList, TDict) and not callable(v):
+                    _hit("R", d.get("_a5_name", "?") + "." + attr, v)
+            return v
+
+        def sa(self, attr, value):
+            object.__setattr__(self, attr, value)
+            if attr[:4] != "_a5_":
+                _hit("W", object.__getattribute__(self, "__dict__").get("_a5_name", "?") + "." + attr, value)
+        try:
+            _TRACED[cls] = type(cls.__name__ + "Traced", (cls,), {"__getattribute__": ga, "__setattr__": sa, "_a5_traced": True})
+        except TypeError:
+            _TRACED[cls] = None
+    sub = _TRACED[cls]
+    if sub is None:
+        return
+    try:
+        object.__setattr__(obj, "_a5_name", name)
+        obj.__class__ = sub
+    except Exception:
+        pass
+
+
 def _wrap_instance(obj, name, seen, names, depth):
     if depth > 3 or id(obj) in seen:
         return
@@ -126,6 +177,7 @@ def _wrap_instance(obj, name, seen, names, depth):
     d = getattr(obj, "__dict__", None)
     if not isinstance(d, dict):
         return
+    _trace_attrs(obj, name)
     for attr, val in list(d.items()):
         if type(val) in (list, dict):
             if id(val) not in seen:
@@ -138,6 +190,17 @@ def _wrap_instance(obj, name, seen, names, depth):
                 pass
         elif getattr(type(val), "__module__", "").startswith("a5.") and not isinstance(val, (type, types.FunctionType)):
             _wrap_instance(val, name + "." + attr, seen, names, depth + 1)
+
+
+def _globals_snapshot():
+    """identity of every module-level non-code object of a5.* (a `global x; x = ...` inside a call shows up here)"""
+    snap = {}
+    for m in _mods():
+        for attr, val in vars(m).items():
+            if attr.startswith("__") or isinstance(val, (types.ModuleType, types.FunctionType, type)) or callable(val):
+                continue
+            snap[m.__name__ + "." + attr] = (id(val), repr(val)[:40] if isinstance(val, (int, float, str, bool, tuple, type(None))) else "")
+    return snap
 
 
 # ------------------------------------------------------------------ experiments
@@ -159,6 +222,7 @@ def record(A, warm):
         _run(A)
     _State.log = []
     _State.lines = 0
+    before = _globals_snapshot()
 
     def tracer(frame, event, arg):
         if not _is_a5(frame):
@@ -177,7 +241,9 @@ def record(A, warm):
     for ev in log:
         if not out or out[-1][:3] != list(ev[:3]):
             out.append(list(ev))
-    return {"bits": bits[0], "program": out[:4000], "truncated": len(out) > 4000, "lines": _State.lines}
+    after = _globals_snapshot()
+    rebinds = sorted(k for k in after if k in before and after[k] != before[k])
+    return {"bits": bits[0], "program": out[:4000], "truncated": len(out) > 4000, "lines": _State.lines, "rebinds": rebinds}
 
 
 def _is_a5(frame):
